@@ -24,7 +24,7 @@ def run(ctx, rep):
         offs[name] = sorted(f.expr(i.ops[0]) for i in st)
         find = list(f.calls('parity_split_find'))
         io_ = list(f.calls({'pread', 'pwrite'}))
-        ok = len(st) == 1 and len(find) == 1 and f.expr(find[0].ops[1]) == '&offset' and f.dominates(st[0], find[0]) and bool(io_) and all(f.dominates(find[0], c) and f.expr(c.ops[0]) == 'split->f' for c in io_)
+        ok = len(st) == 1 and len(find) == 1 and f.expr(find[0].ops[1]) == '&offset' and f.dominates(st[0], find[0]) and bool(io_) and all(f.dominates(find[0], c) and f.xexpr(c.ops[0]) == 'split->f' for c in io_)
         # the io offset argument derives from the offset resolved by parity_split_find
         ok = ok and all('offset' in f.expr(c.ops[3]) for c in io_)
         rep.check(ok, 'R-C17-1', '%s: offset -> parity_split_find -> %s(split->f, ..., offset)' % (name, io_[0].callee if io_ else '?'), f.file, 'offset = %s' % offs[name], function=name, construct='mapping')
@@ -221,8 +221,7 @@ def handle_valid_size_rules(P, rep, rid):
                     ok = True; kind = 'init'
                 else:
                     kind = 'raise'
-                    gs = guards_of(f, i)
-                    ok = any(a.replace(' ', '') == '(%s<%s)' % (tgt, val) and p for a, p in gs) or any(a.replace(' ', '') == '(%s>=%s)' % (tgt, val) and not p for a, p in gs)
+                    ok = _guarded_raise(f, i)
                 rep.check(ok, rid, '%s: %s = %s (%s)' % (base(f.name), tgt, val, kind), i.loc(), '' if ok else 'assignment that can lower the valid size of an open data file', function=base(f.name), construct='handle valid_size %s' % kind)
                 rep.analysed(f)
     return n
@@ -612,3 +611,28 @@ def _numeric(f, o, salt, depth=0):
             a, b = _numeric(f, i.ops[0], salt, depth + 1), _numeric(f, i.ops[1], salt, depth + 1)
             return {'add': a + b, 'mul': a * b, 'sub': a - b, 'or': a | b, 'and': a & b, 'xor': a ^ b, 'shl': a << (b % 8)}[i.op] % M
     return zlib.crc32(('%d:%s' % (salt, f.xexpr(o))).encode()) % 1000003 + 7
+
+
+def _guarded_raise(f, st):
+    """True iff the store `X->valid_size = v` is dominated by a branch edge that implies (old valid_size) < v -- the comparison is
+    found by evaluating both sides (any operand order / spelling) and its meaning by enumeration over small values"""
+    for b_ in range(len(f.blocks)):
+        t_ = f.term(b_)
+        if t_.op != 'br' or len(t_.ops) != 3:
+            continue
+        ci = f.inst_of(t_.ops[0])
+        if ci is None or ci.op != 'icmp' or ci.pred in ('eq', 'ne'):
+            continue
+        for edge_true, sb in ((True, t_.ops[2][1]), (False, t_.ops[1][1])):
+            if not f.edge_dominates(t_, sb, st):
+                continue
+            sides = [f.expr(o).endswith('valid_size') for o in ci.ops]
+            if sides.count(True) != 1:
+                continue
+            other = ci.ops[1] if sides[0] else ci.ops[0]
+            if not all(_numeric(f, other, k_) == _numeric(f, st.ops[0], k_) for k_ in (1, 2, 3)):
+                continue
+            pairs = [(a_, b2) for a_ in range(4) for b2 in range(4) if _icmp(ci.pred, *((a_, b2) if sides[0] else (b2, a_))) == edge_true]
+            if pairs and all(a_ < b2 for a_, b2 in pairs):
+                return True
+    return False
